@@ -5,7 +5,7 @@
    the same neighbour and that ring bonds are stored at both ends with one order. *)
 From Coq Require Import Ascii String List Arith ZArith NArith Bool Lia Permutation.
 Import ListNotations.
-From Selfies Require Import Base Generated Lex Atoms Grammar Compat Decoder BaseFacts StateFacts DecoderBasics ConfigFacts DecoderInv.
+From Selfies Require Import Base Generated Lex Atoms Grammar Compat Decoder BaseFacts StateFacts DecoderBasics ConfigFacts DecoderInv DecoderTree.
 Local Open Scope Z_scope.
 
 (* ---------- sums ---------- *)
@@ -484,14 +484,15 @@ Proof.
   destruct (c <? 0); inversion E; subst. exact Ec.
 Qed.
 
-Definition GraphOK (T : table) (m : dmol) : Prop := MolWF (CapOf T) SumInv m.
+Definition GraphOK (T : table) (m : dmol) : Prop := MolWF (CapOf T) SumInv m /\ TreeInv m.
 
 Theorem decode_graph_ok T s attribute m : (exists c, assoc (lit "?") T = Some c) -> digits_ok s ->
   decode_graph T s false attribute = Ok m -> GraphOK T m.
 Proof.
   intros Hq Hd E.
   exact (decode_graph_wf (CapOf T) SumInv sum_empty (sum_add_atom (CapOf T)) (sum_add_bond (CapOf T))
-           (sum_upd (CapOf T)) (sum_add_ring (CapOf T)) T Hq (pas_cap T) s attribute m Hd E).
+           (sum_upd (CapOf T)) (sum_add_ring (CapOf T)) TreeInv tree_empty (tree_root (CapOf T) SumInv) (tree_step (CapOf T) SumInv)
+           (tree_upd (CapOf T) SumInv) (tree_ring (CapOf T) SumInv) T Hq (pas_cap T) s attribute m Hd E).
 Qed.
 
 Theorem decode_graph_ok_c T s compat attribute m : (exists c, assoc (lit "?") T = Some c) -> frags_ok s compat ->
@@ -499,7 +500,8 @@ Theorem decode_graph_ok_c T s compat attribute m : (exists c, assoc (lit "?") T 
 Proof.
   intros Hq Hd E.
   exact (decode_graph_wf_c (CapOf T) SumInv sum_empty (sum_add_atom (CapOf T)) (sum_add_bond (CapOf T))
-           (sum_upd (CapOf T)) (sum_add_ring (CapOf T)) T Hq (pas_cap T) s compat attribute m Hd E).
+           (sum_upd (CapOf T)) (sum_add_ring (CapOf T)) TreeInv tree_empty (tree_root (CapOf T) SumInv) (tree_step (CapOf T) SumInv)
+           (tree_upd (CapOf T) SumInv) (tree_ring (CapOf T) SumInv) T Hq (pas_cap T) s compat attribute m Hd E).
 Qed.
 
 Theorem decoder_total_ok_c T s compat attribute : (exists c, assoc (lit "?") T = Some c) -> frags_ok s compat ->
@@ -507,7 +509,8 @@ Theorem decoder_total_ok_c T s compat attribute : (exists c, assoc (lit "?") T =
 Proof.
   intros Hq Hd.
   exact (decoder_total_c (CapOf T) SumInv sum_empty (sum_add_atom (CapOf T)) (sum_add_bond (CapOf T))
-           (sum_upd (CapOf T)) (sum_add_ring (CapOf T)) T Hq (pas_cap T) s compat attribute Hd).
+           (sum_upd (CapOf T)) (sum_add_ring (CapOf T)) TreeInv tree_empty (tree_root (CapOf T) SumInv) (tree_step (CapOf T) SumInv)
+           (tree_upd (CapOf T) SumInv) (tree_ring (CapOf T) SumInv) T Hq (pas_cap T) s compat attribute Hd).
 Qed.
 
 Theorem decoder_total_ok T s attribute : (exists c, assoc (lit "?") T = Some c) -> digits_ok s ->
@@ -515,7 +518,8 @@ Theorem decoder_total_ok T s attribute : (exists c, assoc (lit "?") T = Some c) 
 Proof.
   intros Hq Hd.
   exact (decoder_total (CapOf T) SumInv sum_empty (sum_add_atom (CapOf T)) (sum_add_bond (CapOf T))
-           (sum_upd (CapOf T)) (sum_add_ring (CapOf T)) T Hq (pas_cap T) s attribute Hd).
+           (sum_upd (CapOf T)) (sum_add_ring (CapOf T)) TreeInv tree_empty (tree_root (CapOf T) SumInv) (tree_step (CapOf T) SumInv)
+           (tree_upd (CapOf T) SumInv) (tree_ring (CapOf T) SumInv) T Hq (pas_cap T) s attribute Hd).
 Qed.
 
 (* the valence guarantee, at the level of the graph the writer prints *)
@@ -523,7 +527,7 @@ Theorem graph_valence T m : GraphOK T m ->
   forall i a c at_, nth_error (atoms m) i = Some (a, c, at_) ->
     a_aromatic a = false /\ bonding_capacity T a = Ok c /\ 0 <= valence m i <= c.
 Proof.
-  intros Hm i a c at_ E. destruct (wf_atoms _ _ _ Hm i a c at_ E) as (Hc0 & Har & Hcap).
+  intros [Hm _] i a c at_ E. destruct (wf_atoms _ _ _ Hm i a c at_ E) as (Hc0 & Har & Hcap).
   assert (Hi : (i < natoms m)%nat) by (unfold natoms; apply nth_error_Some; congruence).
   pose proof (wf_val _ _ _ Hm i Hi) as Hv. unfold capOf in Hv. rewrite E in Hv.
   rewrite (si_val _ (wf_extra _ _ _ Hm) i Hi) in Hv.
